@@ -56,6 +56,14 @@ PROPS['C08'] = _board('C08', ['C08'],
     'the same board scripts: every getter (position, turn, hash, clock, ply, full moves, castled flags, last / second-to-last move, HasMoved(3), HasMoved(1000), result, repetition count) recorded before each successful push and compared after the matching pop; boards re-selected after operations on their forks / parents must report what they reported last; pops never go below a fork point.',
     'Take-back restores every getter at any nesting depth; forks and parents are isolated above the fork point; fork reports what its parent reports; heap model of coq/Model/Board.v compared with the implementation after every operation.')
 
+PROPS['C06'].update({
+    'coq_targets': ['Properties/C06.vo', 'Impl/ImplBoard.vo'],
+    'obligation_files': ['Properties/C06.v', 'Impl/ImplBoard.v'],
+    'level': 'proof',
+    'level_text': 'Proof: for every occupancy (lifting argument over the rotated bitboards, no enumeration of occupancies), every square and every target bit, Rook/Bishop/Queen attack boards computed by shift-mask-lookup on the tables dumped from the running code equal geometric ray walking (stop at and include the first occupied square); King/Knight tables and pawn capture boards equal their offset definitions; the incrementally xor-maintained rotated words stay in lockstep with the occupancy. The three lookup functions and the derived queries (attacked / check / checkmate) are tied to Go by the structured sweep and compared with the specification on generated positions. Derived-query theorems (is_attacked = Spec.attacked under the representation invariant) are being added with C02.',
+    'level_note': 'Trusted: Coq kernel (vm_compute for the 64x256 table sweeps, domain stated in the lemmas); the regenerated tables are values observed from the running code via the verif hook; Go array indexing/shift semantics as modelled in Model/Bits.v and Model/Attacks.v, exercised by the sweep. FindPins/FindCapture are covered by correspondence only so far.',
+})
+
 # Every listed property is claimed; reasons would go here otherwise.
 NOT_APPLICABLE = [
     {'property_id': pid, 'reason': 'check not built yet in this session (work in progress; see DESIGN.md section 9)'}
